@@ -48,7 +48,7 @@ Qed.
 (* ---- invariant ---------------------------------------------------------------- *)
 Definition honest (d : disk fkey dcont) : Prop :=
   forall di k c, In (di, k, c) d ->
-    match c with FGood x => x = ideal (fst k) (snd k) | FBad _ => True | FShape => False end.
+    match c with FGood x => x = ideal (fst k) (snd k) | FBad _ => True | FShape => True end.
 
 (* the cached operator belongs to the cached method name *)
 Definition Inv (s : st) : Prop :=
@@ -64,7 +64,7 @@ Lemma honest_filter : forall d f, honest d -> honest (filter f d).
 Proof. unfold honest. intros d f H di k c Hin. apply filter_In in Hin. destruct Hin. eapply H; eauto. Qed.
 
 Lemma honest_put : forall d di k c, honest d ->
-  match c with FGood x => x = ideal (fst k) (snd k) | FBad _ => True | FShape => False end ->
+  match c with FGood x => x = ideal (fst k) (snd k) | FBad _ => True | FShape => True end ->
   honest (put_file fkey_eqb di k c d).
 Proof.
   unfold honest, put_file, remove_file. intros d di k c H Hc di' k' c' [Hin|Hin].
@@ -100,10 +100,15 @@ Proof.
   destruct e as [[d' k'] c']. simpl in *. apply fkey_eqb_eq in H2. subst. auto.
 Qed.
 
-Lemma first_ge_spec : forall cols order sz, first_ge cols order = Some sz -> cols <= sz.
+Lemma scan_spec : forall meth cols di order d sz c,
+  scan meth cols di order d = Some (sz, c) ->
+  cols <= sz /\ In (di, (meth, sz), c) d /\ c <> FShape.
 Proof.
-  induction order as [|x r IH]; simpl; intros sz H; [discriminate|].
-  destruct (cols <=? x) eqn:E; [inversion H; subst; apply Nat.leb_le; auto|auto].
+  induction order as [|x r IH]; simpl; intros d sz c H; [discriminate|].
+  destruct (cols <=? x) eqn:E; [|eauto].
+  destruct (find_file fkey_eqb di (meth, x) d) as [[y|e|]|] eqn:Ef; eauto;
+    inversion H; subst; (split; [apply Nat.leb_le; auto|]);
+    (split; [apply find_file_In; auto|discriminate]).
 Qed.
 
 Lemma crop_eqv : forall cols d meth, d_meth d = meth -> d_junk d = false -> cols <= d_size d ->
@@ -128,9 +133,9 @@ Qed.
 (* ---- one step ------------------------------------------------------------------ *)
 Lemma step_good : forall s o s' r,
   Inv s -> hazard s o = false -> step s o = (s', r) ->
-  ((forall e, r <> Raise e) \/ is_call o = false -> Inv s') /\
+  Inv s' /\
   (is_call o = true ->
-     ((exists d, r = Ret d) /\ out_eqv r (fresh o) = true) \/
+     out_eqv r (fresh o) = true \/
      exists e di k pe, r = Raise e /\ In (di, k, FBad pe) (dk s)).
 Proof.
   intros s o s' r HI Hz Hs. pose proof HI as [HI0 Hh].
@@ -150,36 +155,25 @@ Proof.
       destruct HI0 as [Hm Hj]. injection Hm as Hm'.
       destruct (crop_eqv cols d meth (eq_sym Hm') Hj E1) as (C1 & C2 & C3 & C4).
       rewrite C2, Nat.ltb_irrefl in Hs. inversion Hs; subst. split.
-      * intros _. unfold Inv, mk. cbn [D method dk]. rewrite C3, C4. auto.
-      * intros _. left. split; [eexists; reflexivity|exact C1].
+      * unfold Inv, mk. cbn [D method dk]. rewrite C3, C4. auto.
+      * intros _. left. exact C1.
     + destruct (resolve (gdir s) bd) as [g dir] eqn:Er.
       unfold uses_bad_dir in Hz. rewrite Er in Hz. cbn [snd] in Hz.
-      set (lf := match dir with
-                 | None => None
-                 | Some di => match first_ge cols order with
-                              | None => None
-                              | Some sz => match find_file fkey_eqb di (meth, sz) (dk s) with
-                                           | Some c => Some (sz, c)
-                                           | None => None
-                                           end
-                              end
-                 end) in *.
-      assert (Hlf : forall sz c, lf = Some (sz, c) -> cols <= sz /\ exists di, In (di, (meth, sz), c) (dk s)).
+      set (lf := match dir with None => None | Some di => scan meth cols di order (dk s) end) in *.
+      assert (Hlf : forall sz c, lf = Some (sz, c) ->
+                cols <= sz /\ (exists di, In (di, (meth, sz), c) (dk s)) /\ c <> FShape).
       { intros sz c. unfold lf. destruct dir as [di|]; [|discriminate].
-        destruct (first_ge cols order) as [sz0|] eqn:Ef; [|discriminate].
-        destruct (find_file fkey_eqb di (meth, sz0) (dk s)) as [c0|] eqn:Eff; [|discriminate].
-        intros E. inversion E; subst. split; [eapply first_ge_spec; eauto|].
-        exists di. apply find_file_In; auto. }
+        intros E. destruct (scan_spec _ _ _ _ _ _ _ E) as (A & B & C). split; auto. split; eauto. }
       destruct lf as [[sz c]|] eqn:Elf.
-      * destruct (Hlf sz c eq_refl) as [Hsz [di Hin]]. pose proof (Hh _ _ _ Hin) as Hc.
-        destruct c as [d|pe|]; [| |contradiction].
+      * destruct (Hlf sz c eq_refl) as (Hsz & [di Hin] & Hns). pose proof (Hh _ _ _ Hin) as Hc.
+        destruct c as [d|pe|]; [| |congruence].
         -- cbn [fst snd] in Hc. subst d.
            destruct (crop_eqv cols (ideal meth sz) meth eq_refl eq_refl Hsz) as (C1 & C2 & C3 & C4).
            rewrite C2, Nat.ltb_irrefl in Hs. inversion Hs; subst. split.
-           ++ intros _. unfold Inv, mk. cbn [D method dk]. rewrite C3, C4. auto.
-           ++ intros _. left. split; [eexists; reflexivity|exact C1].
+           ++ unfold Inv, mk. cbn [D method dk]. rewrite C3, C4. auto.
+           ++ intros _. left. exact C1.
         -- inversion Hs; subst. split.
-           ++ intros [Hne|Hc2]; [exfalso; eapply Hne; reflexivity|discriminate].
+           ++ exact HI.
            ++ intros _. right. exists (load_exc pe), di, (meth, sz), pe. auto.
       * (* generate *)
         assert (Hgen : forall d', honest d' -> Inv (mk (Some (ideal meth cols)) (Some meth) 3 g d')).
@@ -189,27 +183,27 @@ Proof.
         destruct dir as [di|].
         -- apply negb_false_iff in Hz. rewrite Hz in Hs. cbn [d_size ideal] in Hs.
            rewrite Nat.ltb_irrefl in Hs. inversion Hs; subst. split.
-           ++ intros _. apply Hgen. apply honest_put; auto.
-           ++ intros _. left. split; [eexists; reflexivity|exact Heq].
+           ++ apply Hgen. apply honest_put; auto.
+           ++ intros _. left. exact Heq.
         -- cbn [d_size ideal] in Hs. rewrite Nat.ltb_irrefl in Hs. inversion Hs; subst. split.
-           ++ intros _. apply Hgen; auto.
-           ++ intros _. left. split; [eexists; reflexivity|exact Heq].
-  - inversion Hs; subst. split; [|discriminate]. intros _. unfold Inv, mk. cbn. auto.
+           ++ apply Hgen; auto.
+           ++ intros _. left. exact Heq.
+  - inversion Hs; subst. split; [|discriminate]. unfold Inv, mk. cbn. auto.
   - cbn [step] in Hs. destruct (resolve (gdir s) bd) as [g dir].
-    destruct dir as [di|]; inversion Hs; subst; (split; [|discriminate]); intros _;
+    destruct dir as [di|]; inversion Hs; subst; (split; [|discriminate]);
       unfold Inv, mk; cbn [D method dk]; split; auto. apply honest_filter; auto.
-  - inversion Hs; subst. split; [|discriminate]. intros _. exact HI.
-  - inversion Hs; subst. split; [|discriminate]. intros _.
+  - inversion Hs; subst. split; [|discriminate]. exact HI.
+  - inversion Hs; subst. split; [|discriminate].
     unfold Inv, mk. cbn [D method dk]. split; auto.
     apply honest_put; auto. cbn [hazard] in Hz.
-    destruct c as [x|e|]; auto; [|discriminate].
+    destruct c as [x|e|]; auto.
     apply negb_false_iff in Hz. apply dcont_eqb_eq in Hz. auto.
-  - inversion Hs; subst. split; [|discriminate]. intros _.
+  - inversion Hs; subst. split; [|discriminate].
     unfold Inv, mk. cbn [D method dk]. split; auto. apply honest_filter; auto.
 Qed.
 
 (* ---- no damaged file --------------------------------------------------------------- *)
-Definition clean (s : st) : Prop := forall di k c, In (di, k, c) (dk s) -> exists x, c = FGood x.
+Definition clean (s : st) : Prop := forall di k c, In (di, k, c) (dk s) -> forall pe, c <> FBad pe.
 
 Lemma step_dk : forall s o s' r, step s o = (s', r) ->
   forall di k c, In (di, k, c) (dk s') ->
@@ -239,9 +233,9 @@ Qed.
 Lemma step_clean : forall s o s' r, clean s -> damage o = false -> hazard s o = false ->
   step s o = (s', r) -> clean s'.
 Proof.
-  intros s o s' r Hc Hd Hz Hs di k c Hin.
-  destruct (step_dk _ _ _ _ Hs _ _ _ Hin) as [H|[H|(d0 & k0 & ->)]]; eauto.
-  cbn [damage hazard] in *. destruct c; eauto; discriminate.
+  intros s o s' r Hc Hd Hz Hs di k c Hin pe.
+  destruct (step_dk _ _ _ _ Hs _ _ _ Hin) as [H|[[x ->]|(d0 & k0 & ->)]]; [eauto|discriminate|].
+  cbn [damage] in Hd. destruct c; try discriminate.
 Qed.
 
 (* ---- the theorems --------------------------------------------------------------------- *)
@@ -255,12 +249,10 @@ Proof.
   destruct (step s o) as [s' r] eqn:Es. cbn [fst] in Hz2.
   destruct (step_good _ _ _ _ HI Hz1 Es) as [HI' Hr].
   pose proof (step_clean _ _ _ _ Hc Hd1 Hz1 Es) as Hc'.
-  destruct (is_call o) eqn:Eo.
-  - destruct (Hr eq_refl) as [[[d ->] Hok]|(e & di & k & pe & _ & Hin)].
-    + rewrite Hok. cbn [andb]. apply IH; auto.
-      apply HI'. left. discriminate.
-    + destruct (Hc _ _ _ Hin) as [b Hb]. discriminate.
-  - cbn [andb]. apply IH; auto.
+  apply andb_true_iff. split; [|apply IH; auto].
+  destruct (is_call o) eqn:Eo; [|reflexivity].
+  destruct (Hr eq_refl) as [Hok|(e & di & k & pe & _ & Hin)]; [exact Hok|].
+  exfalso. exact (Hc _ _ _ Hin pe eq_refl).
 Qed.
 
 (* C07 for the three Dasch methods *)
@@ -272,40 +264,37 @@ Proof.
   - intros di k c [].
 Qed.
 
-Lemma safe_until_raise_from : forall ops s,
-  Inv s -> no_hazard s ops = true -> safe_until_raise s ops = true.
+Lemma fault_safe_from : forall ops s,
+  Inv s -> no_hazard s ops = true -> all_safe s ops = true.
 Proof.
   induction ops as [|o ops IH]; intros s HI Hz; [reflexivity|].
-  cbn [no_hazard safe_until_raise] in *.
+  cbn [no_hazard all_safe] in *.
   apply andb_true_iff in Hz. destruct Hz as [Hz1 Hz2]. apply negb_true_iff in Hz1.
   destruct (step s o) as [s' r] eqn:Es. cbn [fst] in Hz2.
   destruct (step_good _ _ _ _ HI Hz1 Es) as [HI' Hr].
-  destruct (is_call o) eqn:Eo.
-  - destruct r as [d|e]; [|reflexivity].
-    destruct (Hr eq_refl) as [[_ Hok]|(e & di & k & pe & Hf & _)]; [|discriminate].
-    rewrite Hok. cbn [andb]. apply IH; auto. apply HI'. left. discriminate.
-  - apply IH; auto.
+  apply andb_true_iff. split; [|apply IH; auto].
+  destruct (is_call o) eqn:Eo; [|reflexivity].
+  destruct (Hr eq_refl) as [Hok|(e & di & k & pe & -> & Hin)].
+  - rewrite Hok. reflexivity.
+  - apply orb_true_iff. right. destruct e; reflexivity.
 Qed.
 
-(* C08, first half: with damaged files around, every call up to and including
-   the first one that raises returns the fresh result or raises *)
-Theorem fault_safe_until_raise : forall ops,
-  no_hazard init ops = true -> safe_until_raise init ops = true.
-Proof. intros. apply safe_until_raise_from; auto. apply Inv_init. Qed.
+(* C08: with damaged / wrong-shape files anywhere in the history every call
+   returns the fresh result or raises — also after a raising call *)
+Theorem fault_safe : forall ops, no_hazard init ops = true -> all_safe init ops = true.
+Proof. intros. apply fault_safe_from; auto. apply Inv_init. Qed.
 
-(* C08, second half, refuted: after the call that met the damaged file has
-   raised and the file has been removed, the next call silently uses the
-   operator of ANOTHER method (finding dasch-failed-load-poisons) *)
+(* the formerly failing history (fixed in 0e05e8d): after the damaged file made
+   a call raise and was removed, the next call is fresh *)
 Definition poison_hist : list op :=
   [Call 0 10 BNone []; Seed 1 (1, 5) (FBad PEOF); Call 1 5 (BPath 1) [5]; Remove 1 (1, 5)].
 Definition poison_call : op := Call 1 5 (BPath 1) [].
+Example failed_load_harmless :
+  res_code (snd (step (run init [Call 0 10 BNone []; Seed 1 (1, 5) (FBad PEOF)]) (Call 1 5 (BPath 1) [5]))) = exc_code EEOF /\
+  out_eqv (last_result poison_hist poison_call) (fresh poison_call) = true.
+Proof. split; vm_compute; reflexivity. Qed.
 
-Theorem failed_load_poisons_refuted :
-  no_hazard init (poison_hist ++ [poison_call]) = true /\
-  res_code (last_result poison_hist poison_call) = 0 /\
-  den_out (last_result poison_hist poison_call) <> den_out (fresh poison_call).
-Proof.
-  split; [vm_compute; reflexivity|]. split; [vm_compute; reflexivity|].
-  vm_compute. intros H. inversion H as [Hf].
-  pose proof (f_equal (fun f => f 0 0) Hf) as Hx. simpl in Hx. discriminate.
-Qed.
+(* 7ce4ac5: a wrong-shape file is skipped *)
+Example wrong_shape_skipped :
+  out_eqv (last_result [Seed 1 (0, 14) FShape] (Call 0 6 (BPath 1) [14])) (fresh (Call 0 6 (BPath 1) [14])) = true.
+Proof. vm_compute. reflexivity. Qed.
